@@ -1346,6 +1346,16 @@ impl<'a> UserModel<'a> {
         column_end: i32,
         width: f64,
     ) -> Result<(), String> {
+        // Validate the whole range first: failing half way would leave the first columns changed
+        self.model.workbook.worksheet(sheet)?;
+        for column in [column_start, column_end] {
+            if column_start <= column_end && !is_valid_column_number(column) {
+                return Err(format!("Column number '{column}' is not valid."));
+            }
+        }
+        if width < 0.0 {
+            return Err(format!("Can not set a negative width: {width}"));
+        }
         let mut diff_list = Vec::new();
         for column in column_start..=column_end {
             let old_value = self.model.get_column_width(sheet, column)?;
@@ -1372,6 +1382,13 @@ impl<'a> UserModel<'a> {
         column_end: i32,
         hidden: bool,
     ) -> Result<(), String> {
+        // Validate the whole range first: failing half way would leave the first columns changed
+        self.model.workbook.worksheet(sheet)?;
+        for column in [column_start, column_end] {
+            if column_start <= column_end && !is_valid_column_number(column) {
+                return Err(format!("Column number '{column}' is not valid."));
+            }
+        }
         let mut diff_list = Vec::new();
         for column in column_start..=column_end {
             let old_value = self
@@ -1440,6 +1457,13 @@ impl<'a> UserModel<'a> {
         row_end: i32,
         hidden: bool,
     ) -> Result<(), String> {
+        // Validate the whole range first: failing half way would leave the first rows changed
+        self.model.workbook.worksheet(sheet)?;
+        for row in [row_start, row_end] {
+            if row_start <= row_end && !is_valid_row(row) {
+                return Err(format!("Row number '{row}' is not valid."));
+            }
+        }
         let mut diff_list = Vec::new();
         for row in row_start..=row_end {
             let old_value = self.model.workbook.worksheet(sheet)?.is_row_hidden(row)?;
@@ -1495,6 +1519,16 @@ impl<'a> UserModel<'a> {
         row_end: i32,
         height: f64,
     ) -> Result<(), String> {
+        // Validate the whole range first: failing half way would leave the first rows changed
+        self.model.workbook.worksheet(sheet)?;
+        for row in [row_start, row_end] {
+            if row_start <= row_end && !is_valid_row(row) {
+                return Err(format!("Row number '{row}' is not valid."));
+            }
+        }
+        if height < 0.0 {
+            return Err(format!("Can not set a negative height: {height}"));
+        }
         let mut diff_list = Vec::new();
         for row in row_start..=row_end {
             let old_value = self.model.get_row_height(sheet, row)?;
